@@ -46,20 +46,22 @@ def default_float_factory(value):  # type: (typing.Any) -> decimal.Decimal
 
 
 def decode_define(line):  # type: (str) -> typing.Tuple[str, str, str]
-    (define, value_type, value) = line.split(',', 2)
-    value_type = value_type.strip()
-    if value_type == "INT" or value_type == "HEX":
-        (Min, Max, default) = value.split(',', 2)
-        my_def = value_type + ' ' + Min.strip() + ' ' + Max.strip()
-        default = default.strip()
+    fields = line.split(',', 2)
+    define = fields[0]
+    value_type = fields[1].strip()
+    value = fields[2] if len(fields) > 2 else ''
+    if value_type in ("INT", "HEX", "FLOAT", "BOOL"):
+        # two range words and the default; a line written without default keeps an empty one
+        parts = value.split(',', 2)
+        my_def = ' '.join([value_type] + [part.strip() for part in parts[0:2]])
+        default = parts[2].strip() if len(parts) > 2 else ''
     elif value_type == "ENUM":
-        (enums, default) = value.rsplit(',', 1)
+        (enums, default) = value.rsplit(',', 1) if ',' in value else ('', value)
         my_def = value_type + "  " + enums[1:]
-    elif value_type == "STRING":
+    else:
+        # STRING and any other type word: no range
         my_def = value_type
         default = value
-    else:
-        logger.debug(line)
 
     return define[1:-1], my_def, default
 
@@ -493,7 +495,7 @@ def dump(mydb, f, **options):
         default_val = define.defaultValue
         if default_val is None:
             default_val = "0"
-        out_str += '"' + data_type + '",'  + define.definition.replace(' ', ',') + '\n'  # + ',' + default_val + '\n'
+        out_str += '"' + data_type + '",' + define.definition.replace(' ', ',') + ',' + default_val + '\n'
 
     out_str += "[END_PARAM_MSG]\n"
 
